@@ -1,2 +1,84 @@
-/- placeholder driver for C06: replaced when the check for C06 is built -/
-def main : IO Unit := IO.println "not-built"
+import CashewsVerif.Driver.Proto
+import CashewsVerif.Model.Lock
+/- Driver for C06: replays a recorded trace of lock-protocol actions on the transition system of
+`Model/Lock.lean`, once over the in-memory backend model (`model=`) and once over the ideal TTL map
+(`spec=`), and reports after every action who is inside which section and whether within the lease
+(`in=` task:key:L|X, from the spec run).
+
+    case <cap>
+    enter <t> <key> <ttl|-> <w|n>
+    attempt <t>
+    leave <t> <n|e|c>
+    giveup <t>
+    tick <dt>
+    funlock <key> <n>
+    probe <key>
+    purge
+-/
+open CashewsVerif CashewsVerif.Proto CashewsVerif.Lock
+
+structure St where
+  mem  : LockSt Mem
+  spec : LockSt TtlMap
+  ids  : List Nat
+
+def parseHow? (s : String) : Option How :=
+  if s = "n" then some .normal else if s = "e" then some .exc else if s = "c" then some .cancel else none
+
+def parseWait? (s : String) : Option Bool :=
+  if s = "w" then some true else if s = "n" then some false else none
+
+def parseAct? : List String → Option Act
+  | ["enter", t, key, ttl, w] => do
+    pure (.enter (← t.toNat?) (← key.toNat?) (← parseTtl? ttl) (← parseWait? w))
+  | ["attempt", t] => do pure (.attempt (← t.toNat?))
+  | ["leave", t, how] => do pure (.leave (← t.toNat?) (← parseHow? how))
+  | ["giveup", t] => do pure (.giveUp (← t.toNat?))
+  | ["tick", dt] => do pure (.tick (← dt.toNat?))
+  | ["funlock", key, n] => do pure (.foreignUnlock (← key.toNat?) (← n.toNat?))
+  | ["probe", key] => do pure (.probe (← key.toNat?))
+  | ["purge"] => some .purge
+  | _ => none
+
+def showLOut : LOut → String
+  | .unit => "U"
+  | .acquired => "A"
+  | .retry => "R"
+  | .locked => "L"
+  | .released true => "rT"
+  | .released false => "rF"
+  | .bool true => "T"
+  | .bool false => "F"
+  | .ignored => "I"
+
+def showInside (s : LockSt TtlMap) (ids : List Nat) : String :=
+  let items := ids.filterMap fun t =>
+    match s.tasks t with
+    | .inside key _ dl => some s!"{t}:{key}:{if liveAt dl s.be.now then "L" else "X"}"
+    | _ => none
+  if items.isEmpty then "-" else ",".intercalate items
+
+def actTask? : Act → Option Nat
+  | .enter t .. => some t
+  | _ => none
+
+def step' (st : St) (line : String) : St × String :=
+  match words line with
+  | ["case", cap] =>
+    match cap.toNat? with
+    | some c => ({ mem := init (Mem.init c), spec := init TtlMap.init, ids := [] }, "ok")
+    | none => (st, "bad-op")
+  | ws =>
+    match parseAct? ws with
+    | none => (st, "bad-op")
+    | some a =>
+      let (m', o) := step memOps st.mem a
+      let (t', o') := step ttlOps st.spec a
+      let ids := match actTask? a with
+        | some t => if st.ids.contains t then st.ids else st.ids ++ [t]
+        | none => st.ids
+      ({ mem := m', spec := t', ids := ids },
+       s!"model={showLOut o} spec={showLOut o'} in={showInside t' ids}")
+
+def main : IO Unit :=
+  mainLoop step' { mem := init (Mem.init 1000), spec := init TtlMap.init, ids := [] }
